@@ -46,6 +46,16 @@ def make_obj(o, with_frame=False):
     return (obj, pieces, frame) if with_frame else (obj, pieces)
 
 
+def indep_rotation(o):
+    """global rotation matrix computed WITHOUT Scenic: parentOrientation composed with the object's own intrinsic yaw (Z), pitch (X),
+    roll (Y)"""
+    from scipy.spatial.transform import Rotation
+    R = Rotation.from_euler("ZXY", [o.get("yaw", 0.0), o.get("pitch", 0.0), o.get("roll", 0.0)])
+    if "parent" in o:
+        R = Rotation.from_euler("ZXY", list(o["parent"])) * R
+    return R.as_matrix()
+
+
 def make_obj_(o):
     from scenic.core import shapes
     if "pieces" in o:   # manifold3d returns single-precision coordinates: keep the pieces exactly representable
@@ -53,12 +63,26 @@ def make_obj_(o):
     from scenic.core.object_types import Object
     k = o["shape"]
     kw = dict(position=vec(o["pos"]), yaw=o.get("yaw", 0.0), pitch=o.get("pitch", 0.0), roll=o.get("roll", 0.0))
+    if "parent" in o:
+        from scenic.core.vectors import Orientation
+        kw["parentOrientation"] = Orientation.fromEuler(*o["parent"])
+    Ri = indep_rotation(o)
     if k in ("box", "cylinder", "cone", "spheroid"):
         sh = dict(box=shapes.BoxShape, cylinder=shapes.CylinderShape, cone=shapes.ConeShape, spheroid=shapes.SpheroidShape)[k]()
         kw.update(shape=sh, width=o["dims"][0], length=o["dims"][1], height=o["dims"][2])
         obj = Object._with(**kw)
+        if np.max(np.abs(obj.orientation.getRotation().as_matrix() - Ri)) > 1e-9:
+            raise RuntimeError("global orientation differs from parentOrientation * (yaw, pitch, roll)")
         pieces = [np.array(obj.occupiedSpace.mesh.vertices, dtype=float)]
-        frame = (np.zeros(3), obj.orientation.getRotation().as_matrix(), np.array(o["pos"], dtype=float))
+        if k == "box":    # the solid of a box from position, rotation and dimensions alone
+            d = o["dims"]
+            loc = np.array([[sx * d[0] / 2, sy * d[1] / 2, sz * d[2] / 2] for sx in (-1, 1) for sy in (-1, 1) for sz in (-1, 1)])
+            ind = loc @ Ri.T + np.array(o["pos"], dtype=float)
+            mb = obj.occupiedSpace.mesh.bounds
+            if np.max(np.abs(ind.min(axis=0) - mb[0])) > 1e-6 or np.max(np.abs(ind.max(axis=0) - mb[1])) > 1e-6:
+                raise RuntimeError("occupiedSpace of a box differs from position + orientation + dimensions")
+            pieces = [ind]
+        frame = (np.zeros(3), Ri, np.array(o["pos"], dtype=float))
     else:  # "multi" (disjoint boxes, several bodies) or "lshape" (union of overlapping boxes, one body)
         mesh = piece_boxes_mesh(o["pieces"], union=(k == "lshape"))
         centre = mesh.bounding_box.center_mass.copy()
@@ -188,7 +212,24 @@ def intersect_oracles(a, b):
     o["both_planar_boxes"] = bool(a._isPlanarBox and b._isPlanarBox)
     o["z_apart"] = abs(a.position.z - b.position.z) > (a.height + b.height) / 2
     o["polys_intersect"] = bool(a._boundingPolygon.intersects(b._boundingPolygon))
+    o["a_planar"], o["b_planar"] = bool(a._isPlanarBox), bool(b._isPlanarBox)
     return o
+
+
+def tilt_of(o):
+    """angle between the object's local z axis and the global one (independent of Scenic)"""
+    return float(math.acos(max(-1.0, min(1.0, indep_rotation(o)[2, 2]))))
+
+
+def bpoly_dev(obj, P, convex):
+    """area of the symmetric difference between obj._boundingPolygon and the projected convex hull of the (independent) vertices;
+    only for convex shapes (projection of a convex hull = hull of the projected vertices)"""
+    if not convex:
+        return None
+    import shapely.geometry as sg
+    hull = sg.MultiPoint([(float(p[0]), float(p[1])) for p in np.concatenate(P)]).convex_hull
+    bp = obj._boundingPolygon
+    return [float(bp.symmetric_difference(hull).area), float(hull.area)]
 
 
 def run_pair(case):
@@ -239,6 +280,11 @@ def run_pair(case):
         out["oracles"] = intersect_oracles(a, b)
     except Exception as e:
         out["oracles_unavailable"] = type(e).__name__ + ": " + str(e)[:200]
+    out["tilt"] = [tilt_of(ca), tilt_of(cb)]
+    try:
+        out["bpoly"] = [bpoly_dev(a, PA, "pieces" not in ca), bpoly_dev(b, PB, "pieces" not in cb)]
+    except Exception as e:
+        out["bpoly_unavailable"] = type(e).__name__ + ": " + str(e)[:200]
     # ground truth: overlap iff some pair of pieces overlaps; disjoint iff every pair is separated
     certs = []
     for i, A in enumerate(PA):
@@ -341,6 +387,12 @@ def run_contain(case):
                                f_hull_in=bool(reg.polygons.contains(obj.occupiedSpace._boundingPolygonHull)))
         except Exception as e:
             out["oracles_unavailable"] = type(e).__name__ + ": " + str(e)[:200]
+    out["tilt"] = tilt_of(case["obj"])
+    try:
+        out["planar"] = bool(obj._isPlanarBox)
+        out["bpoly"] = bpoly_dev(obj, P, "pieces" not in case["obj"])
+    except Exception as e:
+        out["bpoly_unavailable"] = type(e).__name__ + ": " + str(e)[:200]
     allv = np.concatenate(P)
     slack = H["d"][None, :] - allv @ H["n"].T          # >= 0 inside
     tol = 1e-6
@@ -371,9 +423,124 @@ def run_contain(case):
     return out
 
 
+# ------------------------------------------------------------------ history on one footprint region
+def make_footprint(fp, flat_z=None):
+    import shapely.geometry as sg
+    from scenic.core.regions import PolygonalRegion
+    x0, y0, x1, y1 = fp["outer"]
+    hx0, hy0, hx1, hy1 = fp["hole"]
+    poly = sg.Polygon([(x0, y0), (x1, y0), (x1, y1), (x0, y1)], holes=[[(hx0, hy0), (hx1, hy0), (hx1, hy1), (hx0, hy1)]])
+    if flat_z is not None:
+        return PolygonalRegion(polygon=poly, z=flat_z)
+    return PolygonalRegion(polygon=poly).footprint
+
+
+FLAT_DELTA = 1e-3
+
+
+def flat_truth(P, rects, zp):
+    """overlap of convex pieces with the FLAT polygon (strips `rects` at height zp): certified overlap = one piece and one strip with a
+    deep common point both just above (strip x [zp, zp+d]) and just below (strip x [zp-d, zp]) the plane -- by convexity the segment
+    between the two points meets the polygon; certified disjoint = every piece separated from every strip x [zp-d, zp+d]"""
+    d = FLAT_DELTA
+    box = lambda r, lo, hi: np.array([[x, y, z] for x in (r[0], r[2]) for y in (r[1], r[3]) for z in (lo, hi)], dtype=float)
+    allsep = []
+    for i, A in enumerate(P):
+        for r in rects:
+            up, dn = pair_truth(A, box(r, zp, zp + d), tol=1e-7), pair_truth(A, box(r, zp - d, zp), tol=1e-7)
+            if up["kind"] == "com" and dn["kind"] == "com":
+                return dict(overlap=True, certs=[dict(up, i=i, j=0), dict(dn, i=i, j=1)]), [box(r, zp, zp + d), box(r, zp - d, zp)]
+            allsep.append((i, box(r, zp - d, zp + d)))
+    certs, B = [], []
+    for i, slab in allsep:
+        t = pair_truth(P[i], slab)
+        if t["kind"] != "sep":
+            return dict(overlap=None), []
+        certs.append(dict(t, i=i, j=len(B)))
+        B.append(slab)
+    return dict(overlap=False, certs=certs), B
+
+
+def foot_query(q, obj, reg):
+    if q == "obj":
+        return bool(obj.intersects(reg))
+    if q == "vol":
+        return bool(obj.occupiedSpace.intersects(reg))
+    return bool(reg.intersects(obj.occupiedSpace))
+
+
+def run_foot_history(case):
+    """one PolygonalFootprintRegion instance queried with a sequence of objects at different heights; every answer is given
+    next to a FRESH region's answer and certified truth (the footprint = 4 convex strips around the hole, as tall as the object + 20)"""
+    fp = case["footprint"]
+    shared = make_footprint(fp)
+    api = make_footprint(fp)
+    x0, y0, x1, y1 = fp["outer"]
+    hx0, hy0, hx1, hy1 = fp["hole"]
+    rects = [(x0, y0, hx0, y1), (hx1, y0, x1, y1), (hx0, y0, hx1, hy0), (hx0, hy1, hx1, y1)]
+    steps = []
+    for st in case["steps"]:
+        r = {}
+        obj, P = make_obj(st["obj"])
+        obj2, _ = make_obj(st["obj"])       # Object.intersects is cached per object: a second object for the fresh region
+        if st["query"] == "flat":
+            # the flat PolygonalRegion at height zp: Object.intersects (planar-box fast path when |z - zp| <= height/2) vs the
+            # region-level test in both orders vs certified truth
+            try:
+                flat = make_footprint(fp, flat_z=st["zp"])
+                r["shared"] = bool(obj.intersects(flat))
+                r["fresh"] = bool(obj2.occupiedSpace.intersects(flat))
+                r["rev"] = bool(flat.intersects(obj2.occupiedSpace))
+                r["planar"] = bool(obj._isPlanarBox)
+            except Exception as e:
+                r["exc"] = type(e).__name__ + ": " + str(e)[:200]
+            r["truth"], B = flat_truth(P, rects, st["zp"])
+            r["pieces_a"] = [p.tolist() for p in P]
+            r["pieces_b"] = [b.tolist() for b in B]
+            steps.append(r)
+            continue
+        try:
+            r["shared"] = foot_query(st["query"], obj, shared)
+            r["fresh"] = foot_query(st["query"], obj2, make_footprint(fp))
+            c = shared._bounded_cache
+            r["cache"] = None if c is None else [float(c[0]), float(c[1])]
+        except Exception as e:
+            r["exc"] = type(e).__name__ + ": " + str(e)[:200]
+        try:
+            # the public method the overlap queries go through, called with the request they make (z-centre of the mesh, its
+            # height + 1) on a third instance with the same history: z-extent of the region it hands out
+            mb = obj.occupiedSpace.mesh.bounds
+            cz, hz = float((mb[1][2] + mb[0][2]) / 2), float(mb[1][2] - mb[0][2] + 1)
+            reg = api.approxBoundFootprint(cz, hz)
+            r["req"] = [cz, hz]
+            r["api_z"] = [float(reg.mesh.bounds[0][2]), float(reg.mesh.bounds[1][2])]
+        except Exception as e:
+            r["api_unavailable"] = type(e).__name__ + ": " + str(e)[:200]
+        allv = np.concatenate(P)
+        zlo, zhi = float(allv[:, 2].min()) - 10.0, float(allv[:, 2].max()) + 10.0
+        strips = [np.array([[x, y, z] for x in (a, c_) for y in (b, d) for z in (zlo, zhi)], dtype=float) for a, b, c_, d in rects]
+        certs = []
+        for i, A in enumerate(P):
+            for j, B in enumerate(strips):
+                t = pair_truth(A, B)
+                t.update(i=i, j=j)
+                certs.append(t)
+        r["pieces_a"] = [p.tolist() for p in P]
+        r["pieces_b"] = [p.tolist() for p in strips]
+        com = [t for t in certs if t["kind"] == "com"]
+        if com:
+            r["truth"] = dict(overlap=True, certs=[max(com, key=lambda t: t["margin"])])
+        elif all(t["kind"] == "sep" for t in certs):
+            r["truth"] = dict(overlap=False, certs=certs)
+        else:
+            r["truth"] = dict(overlap=None)
+        steps.append(r)
+    return dict(steps=steps)
+
+
 def main():
     job = json.load(sys.stdin)
-    fn = dict(pairs=run_pair, contain=run_contain)[job["kind"]]
+    fn = dict(pairs=run_pair, contain=run_contain, foothist=run_foot_history)[job["kind"]]
     results = []
     for case in job["cases"]:
         try:
